@@ -547,10 +547,20 @@ def one_case(mon, rng, c, pd, C, performance_metrics, ME):
                 check_sharpe(cx, "sharpe_ratio", "definition", dlab, got, ratio, D(dur), ops_rates, vol_want, vol_tol, rf)
 
         # -------------------------------------------------------------- F. alpha, beta
-        bseries = pd.Series(bench, index=fseries.index)
+        # the benchmark is "a series of the same sampling": its index labels need not be the net-value labels (bars stamped
+        # at close instead of open, a plain RangeIndex), pairing is by position
+        bidx_kind = rng.choice(["same", "same", "shifted", "range"])
+        if bidx_kind == "shifted" and len(fseries.index) >= 2:
+            bindex = fseries.index + (fseries.index[1] - fseries.index[0])
+        elif bidx_kind == "range":
+            bindex = pd.RangeIndex(len(bench))
+        else:
+            bidx_kind, bindex = "same", fseries.index
+        mon.cls(f"alpha_beta/benchmark-index/{bidx_kind}")
+        bseries = pd.Series(bench, index=bindex)
         bv = O.exact(bench)
         for dlab, dur in durations[: (2 if c % 2 else 1)]:
-            ok, got = cx.call("alpha_beta", f"{dlab}/{bench_kind}", C.alpha_beta, fseries, bseries, dur)
+            ok, got = cx.call("alpha_beta", f"{dlab}/{bench_kind}/index-{bidx_kind}", C.alpha_beta, fseries, bseries, dur)
             if ok:
                 check_alpha_beta(cx, "alpha_beta", bench_kind, got[0], got[1], v, bv, D(dur), ops_rates)
 
@@ -657,6 +667,18 @@ def check_sharpe(cx, op, clause, site, got, ratio, dur_d, ops, vol_want, vol_tol
     if tol > ILL * max(O.D1, abs(want)):
         mon.cls("sharpe/ill-conditioned")
         return
+    dbl_max = D("1.7976931348623157e308")
+    if abs(want) - tol > dbl_max:
+        # the annualised return fits a double but the ratio (divided by a volatility < 1) does not: it must be inf
+        mon.ev()
+        mon.hit(f"{op}/{clause}")
+        mon.cls("sharpe/ratio-overflow-inf")
+        if kind_of(got)[0] != "inf":
+            cx.viol(op, clause, site + "/overflow", f"got {got!r}; (APR - rf) / volatility overflows a double, the ratio must be inf")
+        return
+    if abs(want) + tol > dbl_max:
+        mon.cls("sharpe/near-overflow-skipped")
+        return
     mon.cls("sharpe/compared")
     cx.close(op, clause, site, got, want, tol)
 
@@ -700,6 +722,11 @@ def check_alpha_beta(cx, op, site, got_alpha, got_beta, v, bv, dur_d, ops_p, ent
     tol = (hi_p - lo_p) / 2 + abs(beta) * (hi_b - lo_b) / 2 + tol_beta * abs(apr_b) + REL * (abs(apr_p) + abs(beta * apr_b)) + 8 * U * (abs(apr_p) + abs(beta * apr_b))
     if tol > ILL * max(O.D1, abs(want)) and tol > ILL * (abs(apr_p) + abs(beta * apr_b)):
         mon.cls("alpha/ill-conditioned")
+        return
+    big = D("1e300")
+    if abs(beta * apr_b) > big or abs(apr_p) > big or abs(want) + tol > big:
+        # a product or the difference leaves the double range (inf, or inf - inf = nan): outside what a float definition fixes
+        mon.cls("alpha/overflow-skipped")
         return
     mon.cls("alpha/compared")
     cx.close(op, cl_a, site, got_alpha, want, tol)
